@@ -43,6 +43,10 @@ def m1(ctx):
             continue
         if key == UNLOCK and m == 'store':
             continue
+        if m == 'load' and (key in (SLOW, CLOS) or (fam.owners(ctx, key) and fam.owners(ctx, key) <= {SLOW, LOCK})):
+            # test-and-test-and-set: the contended path looks at the flag before it attempts the CAS.  A load changes nothing and
+            # decides nothing - M4 still demands that the spin condition answers true only with try_lock()'s own success
+            continue
         if fam.is_delegate(ctx.facts, key):
             # a private helper holding the one atomic operation (`fn acquire_once(&self) -> Result<bool, bool>`, `fn release(&self)`):
             # it runs as part of its callers, whose paths (with the helper spliced in) are checked below
@@ -169,6 +173,10 @@ def m4(ctx):
         for p, evs in ret_paths(ctx, b):
             ctx.oblige(1, sample='closure returns try_lock() un-negated')
             r = p.ret
+            if r is not None and r[0] == 'const' and r[1] == 'bool' and r[2] == '0':
+                # `!locked.load(Relaxed) && self.try_lock()`: a path that answers false without trying is fine (spin_cond asks again);
+                # what matters is that no path answers true without try_lock() having said so
+                continue
             if not (r is not None and r[0] == 'call' and r[2] == 'lock_api::RawMutex::try_lock'):
                 ctx.violate(CLOS, p, 'spin condition is not exactly `self.try_lock()`: %s' % fmt(r))
     s = need(ctx, SPIN)
